@@ -1085,6 +1085,14 @@ def remap_by_types(
             assert isinstance(t_node, ast.Subscript)
             if isinstance(t_node.value, ast.Tuple):
                 _slice = t_node.slice
+                if (
+                    isinstance(_slice, ast.UnaryOp)
+                    and isinstance(_slice.op, ast.USub)
+                    and isinstance(_slice.operand, ast.Constant)
+                    and type(_slice.operand.value) is int
+                ):
+                    # `t[-1]` as python parses it: a constant index all the same
+                    _slice = ast.Constant(value=-_slice.operand.value)
                 if not isinstance(_slice, ast.Constant):
                     raise ValueError(
                         f"Slices must be indexable constants only - {ast.dump(_slice)} is not "
